@@ -91,7 +91,7 @@ def main():
         for f in r["failures"]:
             labs = [l for l in f["labels"] if l != "VX.canary"]
             if not labs:
-                labs = [f"{f['fn']}.total"]
+                labs = [f"{f['fn']}.total"] + list(f.get("implied_labels", []))
             for l in labs:
                 failing_labels.setdefault(l, []).append(f)
         # labelled obligations of this property
